@@ -20,7 +20,8 @@ func init() {
 		},
 		Parts: []Part{
 			{Name: "lifecycle", Run: c05Run, QuickS: 160, ThoroughS: 1500},
-			{Name: "failed-attempt-and-retry", Run: c05Retry, QuickS: 60, ThoroughS: 120},
+			{Name: "failed-attempt-and-retry", Run: c05Retry, QuickS: 120, ThoroughS: 300},
+			{Name: "lazy-candidates", Run: c05Lazy, Workers: 4, QuickS: 30, ThoroughS: 60},
 		},
 	})
 }
